@@ -39,6 +39,10 @@ def generate(seed, stratum, tier):
       o['live_spy'], o['live_trace'] = rng.choice([(True, False), (False, True), (True, True)])    # through the writer thread
     if stratum != 'no-overflow' and rng.random() < 0.3:
       o['class_cap'] = rng.choice([8, 12, 20])      # the object's class declares a larger QUEUE_SIZE of its own
+    if rng.random() < 0.3:
+      # a step that arms a (finite) timed source or cancels the sources of a signal while sources are firing
+      o.setdefault('react', {})['SB'] = [rng.choice([{'op': 'timed', 'sig': 'TH', 'period': 0.1, 'times': 2, 'deferred': rng.choice([True, False]), 'kind': 'fifo', 'id': 3, 'max': 2},
+                                                     {'op': 'cancel_events', 'sig': 'TH', 'id': 4, 'max': 3}])]
     if rng.random() < 0.4:
       o['react'] = {'SA': [{'op': rng.choice(['post_fifo', 'post_lifo']), 'sig': rng.choice(['SB', 'SC']), 'id': 1, 'max': 2}]}
   cap = 500 if stratum == 'no-overflow' else rng.choice([3, 4, 6])
